@@ -1,6 +1,7 @@
 package props
 
 import (
+	"os"
 	"fmt"
 	"github.com/jf-tech/omniparser/idr"
 
@@ -103,6 +104,9 @@ func runC14(c *Ctx) []Violation {
 	s := sched.New(c.T)
 	s.Policy = policy
 	s.Soft = sched.DrawSoft(c.T, k)
+	if sched.Instrumented && len(s.Soft) > 0 && s.Soft[0].SharedOnly {
+		c.Count("soft-yields.shared-state-files-only", 1)
+	}
 	fns := make([]func(*sched.Task), k)
 	for i := range tasks {
 		t := tasks[i]
@@ -126,7 +130,21 @@ func runC14(c *Ctx) []Violation {
 			t.reads = rd.Stats.Reads
 		}
 	}
+	if os.Getenv("VERIF_EVDUMP") != "" {
+		sites := map[int][]int{}
+		sched.SiteDump = func(task, site int) { sites[task] = append(sites[task], site) }
+		defer func() {
+			for k := 0; k < 8; k++ {
+				if len(sites[k]) > 0 {
+					fmt.Fprintf(os.Stderr, "SITES %d %v\n", k, sites[k])
+				}
+			}
+		}()
+	}
 	res := s.Run(fns)
+	if n := s.Met(); n > 0 {
+		c.Count("sched.two-tasks-met-at-a-shared-state-statement", int64(n))
+	}
 	c.Events += int64(s.Steps)
 	c.Count("yields", int64(s.Steps))
 	c.Count("task-switches", int64(s.Switches))
@@ -140,6 +158,9 @@ func runC14(c *Ctx) []Violation {
 	if !c.Race {
 		// pool behaviour is part of the deterministic execution (plain build only: race builds drop pooled items at random)
 		c.Ev("node-id-counter", idr.VerifNodeIDCounter())
+	}
+	if os.Getenv("VERIF_EVDUMP") != "" {
+		fmt.Fprintf(os.Stderr, "TRACE %v\nSOFT %+v\n", s.Trace, s.Soft)
 	}
 	c.Ev("c14", s.TraceSig(), s.Steps)
 	c.Sample = map[string]interface{}{"tasks": k, "worlds": nWorlds, "yields": s.Steps, "switches": s.Switches, "interleaving_hash": fmt.Sprintf("%016x", s.TraceSig()), "task0": tasks[0].w.Name}
